@@ -660,7 +660,10 @@ func c11put(s Swamp, key string, body byte, expiry int64) {
 //	1: a shift-expired claimer vs a writer renewing a's TTL into the future: a claimed a carries
 //	   the expired TTL it was claimed with, never the renewed one;
 //	2: an expired-patch claimer vs a delete of a: once the delete has succeeded a is never
-//	   handed out again and is in no index.
+//	   handed out again and is in no index;
+//	3: a shift-matching claimer (filter on the body, walking the key, creation-time or
+//	   expiry index) vs a writer changing a's body so that it no longer matches (no re-index):
+//	   every claimed clone matches the filter - the record is judged in the state it is claimed in.
 func VerifC11Claims(h *verifrt.H) {
 	h.BackgroundLowPriority(true)
 	s := vfMem(h, nil)
@@ -677,7 +680,7 @@ func VerifC11Claims(h *verifrt.H) {
 	if scenario < 0 {
 		scenario = h.Choose("scenario", h.Param("scenarios", 3))
 	}
-	var got1, got2 []treasure.Treasure
+	var got1, got2, gotMatching []treasure.Treasure
 	var patched []PatchExpiredEntry
 	deleted := false
 	switch scenario {
@@ -710,6 +713,35 @@ func VerifC11Claims(h *verifrt.H) {
 			}
 			g := t.StartTreasureGuard(true)
 			t.SetExpirationTime(g, time.Unix(0, c11Future).UTC())
+			t.Save(g)
+			t.ReleaseTreasureGuard(g)
+		})
+	case 3:
+		// a shift-matching claimer (filter: status "p", walked on the key index) vs a writer
+		// that moves a to status "d" - an update that does not re-index the record
+		isP := func(t treasure.Treasure) bool {
+			raw, err := t.GetContentByteArray()
+			return err == nil && len(raw) == 7 && raw[6] == 'p'
+		}
+		idx := []BeaconType{BeaconTypeKey, BeaconTypeCreationTime, BeaconTypeExpirationTime}[h.Choose("walkedIndex", 3)]
+		h.Go("claimer1", func() {
+			s.BeginVigil()
+			defer s.CeaseVigil()
+			got, _, _ := s.CloneAndDeleteMatchingTreasures(idx, IndexOrderAsc, 2, isP, nil, 0)
+			for _, t := range got {
+				h.Assert(isP(t), "claimed-record-matches-the-filter-at-claim-time")
+			}
+			gotMatching = got
+		})
+		h.Go("writer", func() {
+			s.BeginVigil()
+			defer s.CeaseVigil()
+			t, err := s.GetTreasure("a")
+			if err != nil {
+				return
+			}
+			g := t.StartTreasureGuard(true)
+			t.SetContentByteArray(g, []byte{0xC7, 0x00, 0x81, 0xa1, 's', 0xa1, 'd'})
 			t.Save(g)
 			t.ReleaseTreasureGuard(g)
 		})
@@ -746,6 +778,11 @@ func VerifC11Claims(h *verifrt.H) {
 					h.Assert(t.GetKey() != "a", "deleted-record-not-handed-out-later")
 				}
 			}
+		}
+		if scenario == 3 {
+			// (whether a is still in the swamp afterwards is not asserted: a writer that saves
+			// after the claim legitimately re-creates the record)
+			h.Assert(len(gotMatching) <= 2, "claim-at-most-how-many")
 		}
 		_ = patched
 		h.Cover("end")
